@@ -28,6 +28,14 @@ theorem inv_step (st : State) (ev : Ev) (h : Proofs.PC.Inv st) : Proofs.PC.Inv (
   | fire i => exact inv_fire i h
   | cancel i => exact inv_cancel i h
   | block i => exact inv_block i h
+  | dispatchBlock i =>
+    show Proofs.PC.Inv (dispatchBlock st i).1
+    unfold dispatchBlock
+    split
+    · exact inv_dispatch h
+    · split
+      · exact inv_dispatch h
+      · exact inv_block i (inv_dispatch h)
   | closePeer => exact h
 
 theorem inv_run (h : List Ev) : Proofs.PC.Inv (run h) := by
